@@ -629,3 +629,31 @@ def atomic_child(conn, k, phases):
             conn.send(('harness_error', traceback.format_exc()[-1800:]))
         except Exception:
             pass
+
+
+def fork_held_child(obj, form, conn, n):
+    """started (fork) while the parent holds obj's lock: a non-blocking attempt
+    must fail, then n locked read-modify-write steps"""
+    lock = obj.get_lock()
+    got = lock.acquire(False)
+    conn.send(('nonblocking', got))
+    if got:
+        lock.release()
+
+    raw = obj.get_obj()            # (the accessors take the lock themselves)
+
+    def rd():
+        return raw.value if form == 'value' else raw[0]
+
+    def wr(x):
+        if form == 'value':
+            raw.value = x
+        else:
+            raw[0] = x
+    for _ in range(n):
+        with lock:
+            tmp = rd()
+            if _ % 50 == 0:
+                time.sleep(0)
+            wr(tmp + 1)
+    conn.send(('done', n))
